@@ -36,6 +36,10 @@ func setup() {
 		coreimport.Import(memFs)
 		httpscenario.Import(memFs)
 		scnimport.Import(memFs)
+		// core/config compiles its decode hooks lazily on first use (the real program decodes its config on one
+		// goroutine): do that once here, before the parallel workers start decoding
+		var warm struct{}
+		_ = config.Decode(map[string]any{}, &warm)
 	})
 }
 
